@@ -322,6 +322,50 @@ def main():
                         h.violation(f"update:{mode}", f"{tag}: the second rectangle does not hold the second source's pixels", input={"format": fmt, "mode": mode, "rects": rects})
     finally:
         shutil.rmtree(root, ignore_errors=True)
+    # ---- history: earlier in the same process an image loader was configured with `--black-to-transparent` (a `tile-study` run of
+    # some photograph); that option belongs to that loader — tiles stored and read back afterwards are what was written
+    root2 = tempfile.mkdtemp(prefix="vfc15b_")
+    try:
+        import argparse
+        from toasty.image import ImageLoader as _IL, Image as _Im
+        from toasty.pyramid import PyramidIO as _PIO, Pos as _Pos
+        _IL.create_from_args(argparse.Namespace(black_to_transparent=True, colorspace_processing="srgb", psd_single_layer=None, crop=None))
+        pio2 = _PIO(root2, default_format="png")
+        r2 = np.random.RandomState(rng.randrange(2 ** 31))
+        for mode_, ch_ in (("RGB", 3), ("RGBA", 4)):
+            for all_black in (False, True):
+                a = r2.randint(1, 255, size=(256, 256, ch_)).astype(np.uint8)
+                blk = r2.rand(256, 256) < 0.2
+                a[blk, :3] = 0
+                if all_black:
+                    a[..., :3] = 0
+                if ch_ == 4:
+                    a[..., 3] = 255
+                pos_ = _Pos(1, ch_ - 3, int(all_black))
+                with warnings.catch_warnings():
+                    warnings.simplefilter("ignore")
+                    pio2.write_image(pos_, _Im.from_array(a.copy()))
+                    back = pio2.read_image(pos_)
+                h.case(("after-black-to-transparent", mode_, all_black))
+                h.count("history", "read-after-black-to-transparent-loader")
+                tag = f"png/{mode_} tile with {'only' if all_black else 'some'} pure-black opaque pixels, stored and read back after an image loader with black_to_transparent=True was created in the process"
+                if back is None:
+                    h.violation("history:b2t", f"{tag}: reads back as absent", input={"mode": mode_, "all_black": all_black})
+                elif back.mode.name != mode_:
+                    h.violation("history:b2t", f"{tag}: reads back with mode {back.mode.name}", input={"mode": mode_, "all_black": all_black})
+                elif not np.array_equal(back.asarray(), a):
+                    nb = int((back.asarray() != a).any(axis=2).sum())
+                    h.violation("history:b2t", f"{tag}: {nb} pixels read back changed", input={"mode": mode_, "all_black": all_black})
+    except Exception as e:  # noqa
+        h.violation("history:b2t:crash", f"read-back after a black-to-transparent loader raised {type(e).__name__}: {e}", input="b2t")
+    finally:
+        shutil.rmtree(root2, ignore_errors=True)
+        try:
+            import argparse
+            from toasty.image import ImageLoader as _IL
+            _IL.create_from_args(argparse.Namespace(black_to_transparent=False, colorspace_processing="srgb", psd_single_layer=None, crop=None))
+        except Exception:
+            pass
     try:
         out = lean_driver(lines)
         diff_streams(h, "buffers-vs-model", lines, py, out)
